@@ -147,7 +147,10 @@ def strategies():
     from hypothesis import strategies as st
     import types
 
-    text = st.text(alphabet=st.characters(codec="utf-8", exclude_categories=("Cs",)), max_size=12)
+    # any str a Python program can hold, lone surrogates included (os.fsdecode() of a non-UTF-8 file name yields them)
+    SURR = ["\udc80", "\udce9", "\ud800", "\udfff"]
+    text = st.text(alphabet=st.one_of(st.characters(codec="utf-8", exclude_categories=("Cs",)),
+                                      st.characters(codec="utf-8", exclude_categories=("Cs",)), st.sampled_from(SURR)), max_size=12)
     ident = st.text(alphabet="abcdefgh_", min_size=1, max_size=4)
     ints = st.one_of(st.integers(-5, 5), st.integers(-2**70, 2**70),
                      st.sampled_from([2**63, -2**63 - 1, 2**64, 255, 256]))
@@ -236,7 +239,7 @@ def strategies():
     result_leaf = st.one_of(scalar, pandas_np)
     result_value = st.recursive(result_leaf, containers, max_leaves=8)
 
-    part_keys = st.text(alphabet="abcXY.-_ é", min_size=1, max_size=5)
+    part_keys = st.text(alphabet="abcXY.-_ é\udce9", min_size=1, max_size=5)
     partition = st.builds(
         lambda kind, v: {"t": kind, "v": v},
         st.sampled_from(["impart", "odpart"]),
